@@ -899,6 +899,22 @@ Definition sext (n x : Z) : Z := if x <? 2 ^ (n - 1) then x else x - 2 ^ n.
     s += "(* `modu.max(&[%s])` : the stamp written into a child *)\n" % m_max.group(1).strip()
     s += "Definition merged (curr_epoch node_epoch link_epoch child_epoch : Z) : Z :=\n  m_max %s (modu_max_of curr_epoch) [%s].\n" % (width, "; ".join(margs))
     s += "Definition dispose_here (depth curr_epoch node_epoch : Z) : bool :=\n  (ROOT_ALWAYS && (depth =? 0)) || reclaim_now curr_epoch node_epoch.\n"
+    # the stamp actually written: the maximum, optionally clamped (repair of finding D13)
+    m_clamp = re.search(r"let\s+next_epoch\s*=\s*if\s+modu\.le\(\s*next_epoch\s*,([^)]*)\)\s*\{\s*next_epoch\s*\}\s*else\s*\{([^}]*)\}\s*;", body, re.S)
+    if m_clamp:
+        cb, _ = emd.emit(P(tokenize(m_clamp.group(1))).parse_expr(), envd, 'isize')
+        ca, _ = emd.emit(P(tokenize(m_clamp.group(2))).parse_expr(), envd, 'isize')
+        s += "(* `if modu.le(next_epoch, %s) { next_epoch } else { %s }` *)\n" % (m_clamp.group(1).strip(), " ".join(m_clamp.group(2).split()))
+        s += "Definition STAMP_CLAMPED : bool := true.\n"
+        s += ("Definition child_stamp (curr_epoch node_epoch link_epoch child_epoch : Z) : Z :=\n"
+              "  let next_epoch := merged curr_epoch node_epoch link_epoch child_epoch in\n"
+              "  if m_le %s (modu_max_of curr_epoch) next_epoch %s then next_epoch else %s.\n" % (width, cb, ca))
+    else:
+        if len(re.findall(r"let\s+next_epoch\s*=", body)) != 1:
+            raise TranslateError("dispose_general_node: next_epoch is rebound in a way the translator does not know")
+        s += "Definition STAMP_CLAMPED : bool := false.\n"
+        s += ("Definition child_stamp (curr_epoch node_epoch link_epoch child_epoch : Z) : Z :=\n"
+              "  merged curr_epoch node_epoch link_epoch child_epoch.\n")
     files['DisposeW.v'] = s
 
     # ---------------- TaggedW.v
